@@ -29,6 +29,9 @@ type Tables struct {
 	Nodes      []*types.Named        // Protected minus Containers
 	isCont     map[*types.Named]bool
 	isIter     map[*types.Named]bool
+	// by type key: the same library type can be represented by several *types.Named objects when test variants of a
+	// package are loaded (thorough tier)
+	contKey, iterKey, protKey map[string]bool
 	// R1c: library struct types reachable from a container (or declared as package variables) that contain an iterator type
 	IterInShared []string
 }
@@ -181,6 +184,16 @@ func buildTables(p *Prog) *Tables {
 	byKey(t.RevIters)
 	byKey(t.Nodes)
 	sort.Strings(t.IterInShared)
+	t.contKey, t.iterKey, t.protKey = map[string]bool{}, map[string]bool{}, map[string]bool{}
+	for n := range t.isCont {
+		t.contKey[p.TypeKey(n)] = true
+	}
+	for n := range t.isIter {
+		t.iterKey[p.TypeKey(n)] = true
+	}
+	for n := range t.Protected {
+		t.protKey[p.TypeKey(n)] = true
+	}
 	return t
 }
 
@@ -226,11 +239,24 @@ func (t *Tables) KindOfStruct(ty types.Type) Kind {
 	if t.Protected[n] {
 		return KProt
 	}
+	if n.Obj().Pkg() != nil && t.p.libPkg[n.Obj().Pkg()] {
+		k := t.p.TypeKey(n)
+		if t.iterKey[k] {
+			return KIter
+		}
+		if t.protKey[k] {
+			return KProt
+		}
+	}
 	return KOther
 }
 
-func (t *Tables) IsContainer(n *types.Named) bool { return n != nil && t.isCont[n.Origin()] }
-func (t *Tables) IsIterator(n *types.Named) bool  { return n != nil && t.isIter[n.Origin()] }
+func (t *Tables) IsContainer(n *types.Named) bool {
+	return n != nil && (t.isCont[n.Origin()] || t.contKey[t.p.TypeKey(n.Origin())])
+}
+func (t *Tables) IsIterator(n *types.Named) bool {
+	return n != nil && (t.isIter[n.Origin()] || t.iterKey[t.p.TypeKey(n.Origin())])
+}
 
 // ContainerByKey finds a container type by its key ("lists/arraylist.List").
 func (t *Tables) ContainerByKey(key string) *types.Named {
